@@ -441,6 +441,11 @@ def handle (j : Json) : Except String Json := do
       let shifts ← getRats j "shifts"; let c ← getInt j "center"
       let k1 ← getNats j "k1"; let k2 ← getNats j "k2"
       pure (Json.mkObj [("krad", ratsJson ((k1.zip k2).map (fun p => rpeKrad shifts c p.1 p.2)))])
+  | "pulseq_traj" =>
+      let kx ← getRats j "kx"; let ky ← getRats j "ky"; let kz ← getRats j "kz"
+      let nx ← getNat j "nx"; let ny ← getNat j "ny"; let nz ← getNat j "nz"
+      let r := pulseqTraj kx ky kz nx ny nz
+      pure (Json.mkObj [("kz", ratsJson r.1), ("ky", ratsJson r.2.1), ("kx", ratsJson r.2.2)])
   | "kfreq" =>
       let n ← getNat j "n"; let c ← getInt j "center"; let rev ← getBool j "reversed"
       pure (Json.mkObj [("k", intsJson ((List.range n).map (kfreq n c rev)))])
